@@ -225,7 +225,7 @@ def shard(sh: Shard, seed, lo, hi, tier):
 
 def main(tier, seed):
     run = Run("C09", tier, seed, "fault_enumeration")
-    per = 12 if tier == "quick" else 120
+    per = 20 if tier == "quick" else 500
     jobs = [{"seed": seed, "lo": i * per, "hi": (i + 1) * per, "tier": tier} for i in range(NCPU)]
     run.absorb(run_shards("checks.c09", "shard", jobs, timeout=3400))
     up, down = bounds()
